@@ -639,14 +639,57 @@ Section Loop.
   Ltac jb := eapply (JS_bind_o (fun o => o <> OvrSafe)).
   Ltac jn x := apply (J_JS NoO); exact x.
 
-  Lemma J_format_loop f a1 a2 : no_star f = true -> Forall2 arel a1 a2 ->
+  (* a width or precision taken from an operand ('*') is public: either the format has no '*', or
+     the two operand lists give the same answer to every intFromArg query *)
+  Definition star_ok (f : bytes) (a1 a2 : list value) : Prop :=
+    no_star f = true \/ forall n, intFromArg a1 n = intFromArg a2 n.
+
+  Lemma J_star_width a1 a2 an i4 : (forall n, intFromArg a1 n = intFromArg a2 n) ->
+    J eq (let '(w, present, argNum') := intFromArg a1 an in
+          modify (fun s => set_wid s w present) ;;;
+          (if present then ret tt else wstr "%!(BADWIDTH)") ;;;
+          (if w <? 0 then modify (fun s => set_wid s (- w) present) ;;; upd_flags Printer.f_minus else ret tt) ;;;
+          ret (argNum', S i4, false))
+         (let '(w, present, argNum') := intFromArg a2 an in
+          modify (fun s => set_wid s w present) ;;;
+          (if present then ret tt else wstr "%!(BADWIDTH)") ;;;
+          (if w <? 0 then modify (fun s => set_wid s (- w) present) ;;; upd_flags Printer.f_minus else ret tt) ;;;
+          ret (argNum', S i4, false)).
+  Proof.
+    intros Hi. rewrite <- (Hi an). destruct (intFromArg a1 an) as [[w present] an'].
+    eapply (J_bind any eq); [apply J_set_wid | intros _ _ _].
+    eapply (J_bind any eq); [destruct present; [now apply J_ret | apply J_wstr] | intros _ _ _].
+    eapply (J_bind any eq); [|intros _ _ _; now apply J_ret].
+    destruct (w <? 0); [|now apply J_ret]. eapply (J_bind any any); [apply J_set_wid | intros _ _ _; apply J_upd_flags].
+  Qed.
+
+  Lemma J_star_prec a1 a2 an i7 : (forall n, intFromArg a1 n = intFromArg a2 n) ->
+    J eq (let '(p, present, argNum') := intFromArg a1 an in
+          let '(p, present) := if p <? 0 then (0, false) else (p, present) in
+          modify (fun s => set_prec s p present) ;;;
+          (if present then ret tt else wstr "%!(BADPREC)") ;;;
+          ret (argNum', S i7, false))
+         (let '(p, present, argNum') := intFromArg a2 an in
+          let '(p, present) := if p <? 0 then (0, false) else (p, present) in
+          modify (fun s => set_prec s p present) ;;;
+          (if present then ret tt else wstr "%!(BADPREC)") ;;;
+          ret (argNum', S i7, false)).
+  Proof.
+    intros Hi. rewrite <- (Hi an). destruct (intFromArg a1 an) as [[p present] an'].
+    destruct (if p <? 0 then (0, false) else (p, present)) as [p' present'].
+    eapply (J_bind any eq); [apply J_set_prec | intros _ _ _].
+    eapply (J_bind any eq); [destruct present'; [now apply J_ret | apply J_wstr] | intros _ _ _; now apply J_ret].
+  Qed.
+
+  Lemma J_format_loop f a1 a2 : star_ok f a1 a2 -> Forall2 arel a1 a2 ->
     forall fuel i argNum afterIndex,
     JS NoO eq (format_loop fuel rec f a1 i argNum afterIndex) (format_loop fuel rec f a2 i argNum afterIndex).
   Proof.
     intros Hns Ha. pose proof (Forall2_len _ _ _ Ha) as El.
     induction fuel as [|k IH]; intros i argNum afterIndex; cbn [format_loop]; [intros s1 s2 _ _ _; exact Logic.I|].
     rewrite <- El. set (e := length f). set (numArgs := Z.of_nat (length a1)).
-    assert (forall j, ((j <? e)%nat && (fb f j =? 42)) = false) as Hst by (intros; apply no_star_fb; exact Hns).
+    assert (forall j, ((j <? e)%nat && (fb f j =? 42)) = true -> forall n, intFromArg a1 n = intFromArg a2 n) as Hst.
+    { intros j Hj. destruct Hns as [Hns | Hi]; [|exact Hi]. pose proof (no_star_fb f j Hns) as Hf. fold e in Hf. rewrite Hf in Hj. discriminate. }
     destruct (negb (i <? e)%nat); [apply J_JS; now apply J_ret|].
     jb; [jn (J_set_good true) | apply kovr_mod; intros []; reflexivity | intros _ _ _].
     jb; [| destruct (i <? skip_literal (S e) f i e)%nat; [apply kovr_w1 | intros s; reflexivity] | intros _ _ _].
@@ -661,14 +704,20 @@ Section Loop.
       jb; [now apply Jrec_arg | apply Hkrec | intros _ _ _]. apply IH. }
     jb; [apply J_JS, J_argNumber | apply kovr_keeps, keeps_argNumber | intros [[an i4] ai] ? <-].
     (* width *)
-    rewrite (Hst i4).
     jb.
-    { destruct (parsenum f i4 e) as [[w present] i5].
+    { destruct ((i4 <? e)%nat && (fb f i4 =? 42)) eqn:Est; [apply J_JS, J_star_width, (Hst i4 Est)|].
+      destruct (parsenum f i4 e) as [[w present] i5].
       eapply JS_bind; [jn (J_set_wid w present) | intros _ _ _].
       eapply J_bind; [|intros _ _ _; now apply (J_ret eq (an, i5, ai) (an, i5, ai))].
       destruct (ai && present); [apply J_set_good | now apply J_ret]. }
-    { destruct (parsenum f i4 e) as [[w present] i5]. apply kovr_bind; [apply kovr_mod; intros []; reflexivity | intros _].
-      apply kovr_bind; [destruct (ai && present); [apply kovr_mod; intros []; reflexivity | intros s; reflexivity] | intros _ s; reflexivity]. }
+    { destruct ((i4 <? e)%nat && (fb f i4 =? 42)).
+      - destruct (intFromArg a1 an) as [[w present] an'].
+        apply kovr_bind; [apply kovr_mod; intros []; reflexivity | intros _].
+        apply kovr_bind; [destruct present; [intros s; reflexivity | apply kovr_wstr] | intros _].
+        apply kovr_bind; [|intros _ s; reflexivity].
+        destruct (w <? 0); [|intros s; reflexivity]. apply kovr_bind; [apply kovr_mod; intros []; reflexivity | intros _; apply kovr_keeps, keeps_upd_flags].
+      - destruct (parsenum f i4 e) as [[w present] i5]. apply kovr_bind; [apply kovr_mod; intros []; reflexivity | intros _].
+        apply kovr_bind; [destruct (ai && present); [apply kovr_mod; intros []; reflexivity | intros s; reflexivity] | intros _ s; reflexivity]. }
     intros [[an2 i5] ai2] ? <-.
     (* precision *)
     jb.
@@ -676,15 +725,20 @@ Section Loop.
       eapply JS_bind; [| intros _ _ _].
       { destruct ai2; [jn (J_set_good false) | apply J_JS; now apply J_ret]. }
       eapply J_bind; [apply J_argNumber | intros [[an3 i7] ai3] ? <-].
-      rewrite (Hst i7).
+      destruct ((i7 <? e)%nat && (fb f i7 =? 42)) eqn:Est; [apply J_star_prec, (Hst i7 Est)|].
       destruct (parsenum f i7 e) as [[p present] i8].
       eapply J_bind; [|intros _ _ _; now apply (J_ret eq (an3, i8, ai3) (an3, i8, ai3))].
       destruct present; apply J_set_prec. }
     { destruct ((S i5 <? e)%nat && (fb f i5 =? 46)); [|intros s; reflexivity].
       apply kovr_bind; [destruct ai2; [apply kovr_mod; intros []; reflexivity | intros s; reflexivity] | intros _].
       apply kovr_bind; [apply kovr_keeps, keeps_argNumber | intros [[an3 i7] ai3]].
-      rewrite (Hst i7). destruct (parsenum f i7 e) as [[p present] i8].
-      apply kovr_bind; [destruct present; apply kovr_mod; intros []; reflexivity | intros _ s; reflexivity]. }
+      destruct ((i7 <? e)%nat && (fb f i7 =? 42)).
+      - destruct (intFromArg a1 an3) as [[p present] an'].
+        destruct (if p <? 0 then (0, false) else (p, present)) as [p' present'].
+        apply kovr_bind; [apply kovr_mod; intros []; reflexivity | intros _].
+        apply kovr_bind; [destruct present'; [intros s; reflexivity | apply kovr_wstr] | intros _ s; reflexivity].
+      - destruct (parsenum f i7 e) as [[p present] i8].
+        apply kovr_bind; [destruct present; apply kovr_mod; intros []; reflexivity | intros _ s; reflexivity]. }
     intros [[an4 i8] ai4] ? <-.
     jb; [| destruct ai4; [intros s; reflexivity | apply kovr_keeps, keeps_argNumber] | intros [[an5 i9] ai5] ? <-].
     { destruct ai4; [apply J_JS; now apply (J_ret eq (an4, i8, true) (an4, i8, true)) | apply J_JS, J_argNumber]. }
@@ -761,7 +815,7 @@ Section Top.
   Lemma Forall2_skipn {A B} (R : A -> B -> Prop) n : forall l1 l2, Forall2 R l1 l2 -> Forall2 R (skipn n l1) (skipn n l2).
   Proof. induction n as [|k IH]; intros l1 l2 H; [exact H|]. inversion H; subst; cbn [skipn]; [constructor | now apply IH]. Qed.
 
-  Lemma J_doPrintf f a1 a2 : no_star f = true -> Forall2 arel a1 a2 ->
+  Lemma J_doPrintf f a1 a2 : star_ok f a1 a2 -> Forall2 arel a1 a2 ->
     JS NoO any (doPrintf rec f a1) (doPrintf rec f a2).
   Proof.
     intros Hns Ha. unfold doPrintf. rewrite <- (Forall2_len _ _ _ Ha).
@@ -2382,7 +2436,7 @@ Section Rec.
     - subst. apply J_JS. eapply J_bind; [apply JhandleMethods | intros b ? <-; now apply J_ret].
     - (* Printf on a nested printer *)
       destruct Hc as (<- & Hns & Ha). eapply JS_bind; [|intros; now apply J_ret].
-      eapply JS_weaken; [|apply (J_doPrintf rec Hrec Hkrec Hkeeps f a a0 Hns Ha)]. intros ? ? Hx Ho. exact (Hx Ho).
+      eapply JS_weaken; [|apply (J_doPrintf rec Hrec Hkrec Hkeeps f a a0 (or_introl Hns) Ha)]. intros ? ? Hx Ho. exact (Hx Ho).
     - (* Print on a nested printer *)
       eapply JS_bind; [|intros; now apply J_ret].
       eapply JS_weaken; [|apply (J_doPrint rec Hrec Hkrec a a0 Hc)]. intros ? ? Hx Ho. exact (Hx Ho).
@@ -2414,8 +2468,32 @@ Proof.
   constructor; cbn; auto; try discriminate.
 Qed.
 
+(* a sufficient condition for star_ok: the integer operands are the same on both sides *)
+Definition isintk (v : value) : bool := match v with VInt _ _ | VUint _ _ => true | _ => false end.
+Lemma arel_isintk x y : arel x y -> isintk x = isintk y.
+Proof.
+  intros Ha. inversion Ha as [x' y' H | | ]; subst; try reflexivity.
+  inversion H; subst; try reflexivity.
+  match goal with Hx : lrel _ _ |- _ => destruct Hx as (_ & _ & [-> | (_ & _ & Hm)]) end; [reflexivity|].
+  destruct x, y; try contradiction; reflexivity.
+Qed.
+Lemma ints_public a1 : forall a2, Forall2 arel a1 a2 -> Forall2 (fun x y => isintk x = true -> x = y) a1 a2 ->
+  forall n, intFromArg a1 n = intFromArg a2 n.
+Proof.
+  intros a2 Ha Hi n. unfold intFromArg. rewrite <- (Forall2_len _ _ _ Ha).
+  destruct (n <? Z.of_nat (length a1)); [|reflexivity].
+  assert (forall k, (let x := nth k a1 VNil in let y := nth k a2 VNil in isintk x = isintk y /\ (isintk x = true -> x = y))) as Hn.
+  { clear n. revert a2 Ha Hi. induction a1 as [|x r IH]; intros a2 Ha Hi k; inversion Ha; subst; inversion Hi; subst.
+    - destruct k; cbn; split; auto.
+    - destruct k; cbn [nth]; [split; [now apply arel_isintk | assumption] | now apply IH]. }
+  destruct (Hn (Z.to_nat n)) as [Ek Eq]. cbv zeta in *.
+  destruct (isintk (nth (Z.to_nat n) a1 VNil)) eqn:E1.
+  - rewrite <- (Eq eq_refl). reflexivity.
+  - symmetry in Ek. destruct (nth (Z.to_nat n) a1 VNil), (nth (Z.to_nat n) a2 VNil); try discriminate; reflexivity.
+Qed.
+
 Theorem sprintf_tree_dsim fuel env f a1 a2 o1 o2 :
-  osane (orc env) -> hook_ok env -> no_star f = true -> Forall2 arel a1 a2 ->
+  osane (orc env) -> hook_ok env -> star_ok f a1 a2 -> Forall2 arel a1 a2 ->
   sprintf fuel env f a1 = ROk o1 -> sprintf fuel env f a2 = ROk o2 ->
   exists ops1 ops2 m', o_log o1 = ops1 ++ [OTake] /\ o_log o2 = ops2 ++ [OTake] /\
                        o_bytes o1 = output ops1 /\ o_bytes o2 = output ops2 /\ dsim MUnsafe ops1 ops2 m'.
@@ -2440,7 +2518,7 @@ Qed.
 
 (* Non-interference of Sprintf for leaf operands: Redact() of the two results is byte-identical *)
 Theorem sprintf_tree_noninterference fuel env f a1 a2 o1 o2 :
-  osane (orc env) -> hook_ok env -> no_star f = true -> Forall2 arel a1 a2 ->
+  osane (orc env) -> hook_ok env -> star_ok f a1 a2 -> Forall2 arel a1 a2 ->
   sprintf fuel env f a1 = ROk o1 -> sprintf fuel env f a2 = ROk o2 ->
   forall ops1 ops2, o_log o1 = ops1 ++ [OTake] -> o_log o2 = ops2 ++ [OTake] ->
   rawok ops1 = true -> ptail_ok_from init ops1 = true -> ptail_ok_from init ops2 = true ->
@@ -2503,7 +2581,7 @@ Theorem sprintf_leaf_noninterference fuel env f a1 a2 o1 o2 :
   forall ops1 ops2, o_log o1 = ops1 ++ [OTake] -> o_log o2 = ops2 ++ [OTake] ->
   rawok ops1 = true -> ptail_ok_from init ops1 = true -> ptail_ok_from init ops2 = true ->
   Markers.redact_b (o_bytes o1) = Markers.redact_b (o_bytes o2).
-Proof. intros Ho Hh Hns Ha. apply sprintf_tree_noninterference; auto. now apply lrel_vrel_list. Qed.
+Proof. intros Ho Hh Hns Ha. apply sprintf_tree_noninterference; auto; [now left | now apply lrel_vrel_list]. Qed.
 
 Theorem sprint_leaf_noninterference fuel env a1 a2 o1 o2 :
   osane (orc env) -> hook_ok env -> Forall2 lrel a1 a2 ->
